@@ -95,7 +95,7 @@ def wire(points_after_filter, budget, records, accounting="fixed"):
 # ----------------------------------------------------------------------------- generators
 
 def gen_points(rng):
-    kind = rng.choice(["smooth", "noisy", "polyline", "collinear", "adjacent-repeat", "closing", "revisit", "two"])
+    kind = rng.choice(["smooth", "noisy", "polyline", "collinear", "adjacent-repeat", "closing", "revisit", "two", "near-duplicate"])
     n = rng.randint(2, 60) if rng.random() < 0.3 else rng.randint(2, 14)
     integer = rng.random() < 0.5
 
@@ -119,6 +119,17 @@ def gen_points(rng):
         if kind == "adjacent-repeat" and len(pts) >= 2:
             k = rng.randrange(len(pts))
             pts.insert(k, pts[k])
+        if kind == "near-duplicate" and len(pts) >= 2:
+            # two consecutive samples that are DISTINCT but closer than 1e-9 of their magnitude (a fuzzy point comparison calls them equal);
+            # sometimes the whole stroke far from the origin, where 1e-9 relative is a visible distance
+            if rng.random() < 0.4:
+                off = rng.choice([1e9, -3e9])
+                pts = [(x / 300 + off, y / 300 + off + 2.0) for x, y in pts]
+                integer = False
+            k = rng.choice([len(pts) - 1, rng.randrange(len(pts))])
+            x, y = pts[k]
+            eps = 4e-10
+            pts.insert(k + 1, (x * (1 + eps) if x else 1e-300, y * (1 - eps) if y else -1e-300))
         if kind == "closing" and len(pts) >= 3:
             pts.append(pts[0])
         if kind == "revisit" and len(pts) >= 4:
